@@ -428,7 +428,8 @@ class Trough(Labware):
         if isinstance(column_names, str):
             column_names = [column_names]
 
-        if isinstance(initial_volumes, (int, float)):
+        if isinstance(initial_volumes, (int, float, np.number)):
+            # (one volume for every column; numpy scalars such as numpy.float32(5) or numpy.int64(5) included)
             initial_volumes = [initial_volumes] * columns
 
         # Determine component names with a different default pattern compared to Labware
